@@ -550,10 +550,16 @@ class C04(Profile):
         return cache[x]
 
     def _rtol(self, obj):
+        import os
+        if os.environ.get("VERIF_C04_RTOL"):
+            return float(os.environ["VERIF_C04_RTOL"])
+        # Measured: on the unchanged tree the object and its twin agree bit for bit over the whole quick tier (values are
+        # always fresh contiguous arrays and both sides run the same code), so the slack only has to absorb a possible
+        # difference in summation order, not hide small stale entries: 1e-13 (float64) / 2e-7 (float32) of the array's scale.
         v = obj.values
         if isinstance(v, np.ndarray) and v.dtype == np.float32:
-            return 1e-5
-        return 1e-9
+            return 2e-7
+        return 1e-13
 
     def _check(self, world, op, out, step, kind, fkind, pre):
         base = {"property": "C04", "step": step, "after": kind, "fault": fkind}
@@ -1077,6 +1083,38 @@ class OpGen(object):
             amp = 1.0
         base = m.split(":")[0]
         var = m.split(":")[1] if ":" in m else None
+        if k1 and rng.random() < 0.5:
+            # K1, generic family: an argument of the wrong type or shape, rejected somewhere inside the operation
+            bad = {"reset_values": [[None], [5], [[[1.0, 2.0], [3.0]]], ["abc"]],
+                   "add_constant": [[None], ["x"], [[1.0, 2.0, 3.0]]],
+                   "add_series": [[None], [5], [["a"] * n]],
+                   "butter_pass": [[{"tu": ["a", "b"]}], [{"tu": [None, None]}], [{"tu": [0.0, 0.0]}], [{"tu": [-1.0, 2.0]}]],
+                   "remove_average": [[], []], "remove_poly": [["2"], [None], [-1], [2.5]],
+                   "running_average": [[None], ["3"], [0], [-2]],
+                   "remove_rolling_average": [[], []],
+                   "set_zero_residual_velocity": [[], []], "szrdv": [[], []],
+                   "set_zero_residual_displacement": [[], []]}.get(base)
+            badkw = {"remove_average": [{"section": "x"}, {"section": 2.5}],
+                     "remove_rolling_average": [{"freq_window": None}, {"freq_window": 0}, {"freq_window": "5"}, {"mtype": "velocity", "freq_window": -1}],
+                     "set_zero_residual_velocity": [{"timezone": {"tu": [None, 1.0]}}, {"timezone": {"tu": ["a", None]}}, {"timezone": 3.0},
+                                                    {"timezone": {"tu": [0.0, 0.0]}}],
+                     "szrdv": [{"timezone": {"tu": ["a", None]}}, {"timezone": 3.0}, {"timezone": {"tu": [0.0, 0.0]}},
+                               {"timezone": {"tu": [None, None]}}],
+                     "set_zero_residual_displacement": [{"timezone": {"tu": [0.0, 1.0]}}],
+                     "butter_pass": [{"filter_order": 0}, {"filter_order": "4"}, {"remove_gibbs": "mid", "gibbs_extra": -40}]}.get(base)
+            if bad is not None:
+                i = rng.randrange(len(bad))
+                op["a"] = list(bad[i])
+                if badkw and (not op["a"] or rng.random() < 0.5):
+                    op["kw"] = dict(rng.choice(badkw))
+                    if base == "butter_pass" and not op["a"]:
+                        op["a"] = []
+                if base == "butter_pass" and op["kw"] and rng.random() < 0.7:
+                    nyq = 0.5 / dt
+                    op["a"] = [{"tu": [round(nyq * 0.1, 4), round(nyq * 0.6, 4)]}]
+                if op["a"] or op["kw"]:
+                    op["k1"] = True
+                    return op
         if base == "reset_values":
             op["a"] = [self._values()]
         elif base == "add_constant":
